@@ -165,7 +165,7 @@ class MixedDsaComputation(VariableComputation):
     """
 
     def __init__(self, variable, constraints, variant='B', proba_hard=0.7,
-                 proba_soft=0.7, mode='min', comp_def=None):
+                 proba_soft=0.7, mode='min', stop_cycle=0, comp_def=None):
         """
 
         :param variable a variable object for which this computation is
@@ -188,6 +188,7 @@ class MixedDsaComputation(VariableComputation):
         self.proba_soft = proba_soft
         self.variant = variant
         self.mode = mode
+        self.stop_cycle = stop_cycle
         # some constraints might be unary, and our variable can have several
         # constraints involving the same variable
         self._neighbors = set([v.name for c in constraints
@@ -358,6 +359,11 @@ class MixedDsaComputation(VariableComputation):
                         'value', self.name)
 
             self._neighbors_values.clear()
+            # Check if this was the last cycle
+            if self.stop_cycle and self.cycle_count >= self.stop_cycle:
+                self.finished()
+                self.stop()
+                return
             self._send_value()
             # Beginning of next turn: process the postponed messages
             while self._postponed_messages:
